@@ -194,6 +194,7 @@ c04=[job("named-types-11-digit-seconds","auparse","VH_Header",["C04/"],{"typemod
      job("lowercase","auparse","VH_Header",["C04/"],{"typemode":0,"lower":1,"secdigits":9,"seqdigits":5,"bodymax":0},Q,bounds="type name written in lower case"),
      job("short-fields","auparse","VH_Header",["C04/"],{"typemode":0,"secdigits":1,"seqdigits":1,"bodymax":2},Q,bounds="one-digit seconds and sequence"),
      job("secs-11-digits","auparse","VH_Header",["C04/"],{"typemode":0,"secdigits":11,"seqdigits":3,"bodymax":0},Q,bounds="seconds 11 symbolic digits < 2^34"),
+     job("all-types-short","auparse","VH_Header",["C04/"],{"typemode":2,"secdigits":1,"seqdigits":1,"bodymax":0},Q,bounds="type fully symbolic (all 65536 codes: one path set per table entry plus the unnamed codes), one-digit seconds and sequence, empty body"),
      job("all-types","auparse","VH_Header",["C04/"],{"typemode":2,"secdigits":10,"seqdigits":10,"bodymax":0},T,bounds="type fully symbolic (all 65536 codes: one path set per table entry plus the unnamed codes)"),
      job("body-5","auparse","VH_Header",["C04/"],{"typemode":0,"secdigits":10,"seqdigits":10,"bodymax":5},T,bounds="body 0..5 symbolic ASCII bytes")]
 for h in range(5):
@@ -433,6 +434,10 @@ for trio in [("path","perm","uid"),("dir","perm","success")]:
     for (a,b,c) in itertools.permutations(trio):
         c07.append(job(f"three-{a}-{b}-{c}","rule/flags","VH_RoundTrip",["C07/"],{"shape":0,"field":RTF.index(a),"second":RTF.index(b),"third":RTF.index(c),"list":0,"digits":2,"strmax":1,"maxkeys":1,"sysforms":2,"oneop":1,"realpath":1},
             Q if trio[0]=="path" else T,expect=["C07/accepted-by-build"],bounds=f"three filters in the order {a}, {b}, {c} x {{no -S, -S open|execve|all}} x 0..1 key (string-table cursor, almost-watch-shaped rules)"))
+for f,sf in (("pid",3),("path",2),("arch",3)):
+    c07.append(job("prebuilt-field-"+f,"rule/flags","VH_RoundTrip",["C07/"],{"shape":0,"field":RTF.index(f),"list":0,"digits":2,"smalldigits":2,"strmax":1,"maxkeys":1,"sysforms":sf,"oneop":1,"prebuild":1},Q,expect=["C07/accepted-by-build"],
+       bounds=f"as field-{f} (operator '=', 2 digits), after three other rules went through Build, ToCommandLine and flags.Parse in the same process (a 32-bit syscall rule with strings, keys and a comparison; a watch; a rejected rule)"))
+c07.append(job("prebuilt-watch","rule/flags","VH_RoundTrip",["C07/"],{"shape":1,"prebuild":1},Q,expect=["C07/accepted-by-build"],bounds="file watches after the same three rules"))
 c07.append(job("compare-alone","rule/flags","VH_RoundTrip",["C07/"],{"shape":0,"field":0,"list":0,"compare":2,"maxkeys":0,"sysforms":1},Q,expect=["C07/accepted-by-build"],bounds="syscall rule whose only filter is -C a<op>b: 25 UAPI pairs x both orders x {=, !=} x action"))
 c07.append(job("compare-alone-S-key","rule/flags","VH_RoundTrip",["C07/"],{"shape":0,"field":0,"list":0,"compare":2,"maxkeys":1,"sysforms":3},T,expect=["C07/accepted-by-build"],bounds="as compare-alone x {no -S, -S name, -S number} x 0..1 key"))
 c07.append(job("compare-after-filter","rule/flags","VH_RoundTrip",["C07/"],{"shape":0,"field":0,"list":0,"digits":2,"compare":1,"maxkeys":0,"sysforms":1,"oneop":1},Q,expect=["C07/accepted-by-build"],bounds="pid filter followed by a -C comparison (25 pairs x both orders x 2 operators)"))
